@@ -344,7 +344,13 @@ impl Gen {
             }
             9 => {
                 // ---- stray acknowledgement
-                let ch = if rng.chance(1, 2) { o.channel() } else { "channel-5".to_string() };
+                // (other channels: an unrelated one, one whose id merely contains the configured id, one that is a prefix of it)
+                let ch = match rng.below(6) {
+                    0 | 1 | 2 => o.channel(),
+                    3 => "channel-5".to_string(),
+                    4 => format!("{}4", o.channel()),
+                    _ => { let c = o.channel(); if c.len() > "channel-1".len() { c[..c.len() - 1].to_string() } else { format!("x{c}") } }
+                };
                 let known: Vec<u64> = o.queue.iter().map(|p| p.seq).collect();
                 let max = sc.w.next_seq.get(&o.channel()).cloned().unwrap_or(1);
                 let seq = if ch != o.channel() && !known.is_empty() && rng.chance(1, 2) {
